@@ -1523,6 +1523,8 @@ impl World {
         pdata[8..40].copy_from_slice(if auth_mode == 5 { k(0x77, 1) } else { fx.pool }.as_ref());
         pdata[40..72].copy_from_slice(pmint.as_ref());
         let pos_units = *base.pos_rent.get(&id).unwrap_or(&2);
+        // (reset: two positions in three predate the tick-rent scheme and hold the rent of no / one tick — the handler tops up)
+        let pos_units = if kind == "reset" { pos_units.min((id % 3) as _) } else { pos_units };
         fx.bank.set(position, ::whirlpool::ID, min_balance(pdata.len()) + pos_units as u64 * TICK_RENT, pdata.clone());
         // position mint with supply 1 (close burns the token)
         {
@@ -1749,6 +1751,10 @@ impl World {
                         }
                         if p_after.fee_growth_checkpoint_a != 0 || p_after.fee_growth_checkpoint_b != 0 || (0..3).any(|i| p_after.reward_infos[i].growth_inside_checkpoint != 0) {
                             viols.push("C18 reset_position_range did not reset the growth checkpoints".to_string());
+                        }
+                        let got_l = fx.bank.get(&position).lamports;
+                        if got_l < min_balance(216) + 2 * TICK_RENT {
+                            viols.push(format!("C13 after reset_position_range the position holds {} lamports, less than rent exemption + the rent of two ticks ({})", got_l, min_balance(216) + 2 * TICK_RENT));
                         }
                         tags.push("pos_reset_ok");
                         "ok".to_string()
@@ -3017,6 +3023,12 @@ impl World {
                 }
                 if p.whirlpool != fx.pool || p.position_mint != pmint || p.liquidity != 0 || p.fee_owed_a != 0 || p.fee_owed_b != 0 {
                     viols.push("C18 the opened position is not an empty position of this pool and mint".to_string());
+                }
+                // the opener pre-pays the rent of the two ticks the position may initialise in dynamic tick arrays
+                let want_l = min_balance(216) + 2 * TICK_RENT;
+                let got_l = fx.bank.get(&position).lamports;
+                if got_l < want_l {
+                    viols.push(format!("C13 the opened position holds {} lamports, less than rent exemption + the rent of two ticks ({}): with dynamic tick arrays its first deposit cannot pay for its ticks, with fixed arrays it can", got_l, want_l));
                 }
                 // exactly one token, held by the owner, no mint authority left
                 let md = fx.bank.data(&pmint);
